@@ -245,7 +245,8 @@ theorem v2_ack_decoding (cfg : Config) (c : Nat) (ch : Chain) (p : Packet) (hv2 
     (∃ e, ackPacket cfg c ch p .error = .error e) ∧
     (∃ e, ackPacket cfg c ch p .resultNonCanon = .error e) ∧
     (∃ e, ackPacket cfg c ch p .garbage = .error e) := by
-  refine ⟨?_, ⟨_, by simp [ackPacket, hv2]⟩, ⟨_, by simp [ackPacket, hv2]⟩, ⟨_, by simp [ackPacket, hv2]⟩⟩
+  refine ⟨?_, ⟨.err "ibc/8", by simp [ackPacket, hv2]⟩, ⟨.err "ibc/12", by simp [ackPacket, hv2]⟩,
+    ⟨.err "ibc/4", by simp [ackPacket, hv2]⟩⟩
   simp [ackPacket, timeoutPacket, hv2]
 
 /-- v1: an error acknowledgement is handled exactly like a timeout; the v2 sentinel and undecodable
@@ -254,9 +255,8 @@ theorem v1_ack_decoding (cfg : Config) (c : Nat) (ch : Chain) (p : Packet) (hv1 
     ackPacket cfg c ch p .error = timeoutPacket cfg c ch p ∧
     (∃ e, ackPacket cfg c ch p .sentinel = .error e) ∧
     (∃ e, ackPacket cfg c ch p .garbage = .error e) := by
-  refine ⟨?_, ⟨_, by simp [ackPacket, hv1]⟩, ⟨_, by simp [ackPacket, hv1]⟩⟩
+  refine ⟨?_, ⟨.err "ibc/4", by simp [ackPacket, hv1]⟩, ⟨.err "ibc/4", by simp [ackPacket, hv1]⟩⟩
   simp only [ackPacket, timeoutPacket, hv1, Bool.false_eq_true, if_false]
-  split <;> rfl
 
 /-- a failed refund (blocked or undecodable sender, escrow short) fails the whole transaction: the
     world is unchanged and the packet is not marked resolved, so the refund can be retried -/
